@@ -74,6 +74,27 @@ func init() {
 		} else {
 			return "", fmt.Errorf("consumerGroup.IsEmpty: return expression not found")
 		}
+		// dataFamily.Close: which memory database (with which sequences) is flushed first
+		dff, _ := get("tsdb/data_family.go")
+		fmt.Fprintf(&sb, "/-- arguments of the flushMemoryDatabase calls of dataFamily.Close, in source order -/\ndef closeFlushArgs : List String := %s\n\n",
+			LeanStrList(c07CallArgs(FindFunc(dff, "dataFamily", "Close"), "flushMemoryDatabase")))
+		fmt.Fprintf(&sb, "def flushFlushArgs : List String := %s\n\n",
+			LeanStrList(c07CallArgs(FindFunc(dff, "dataFamily", "Flush"), "flushMemoryDatabase")))
+		// the leader id on the recovery path: directory name -> partition key -> partition.recovery ->
+		// buildReplica -> ReplicaState.Leader -> localReplicator.leader -> family sequence maps
+		walf, _ := get("replica/wal.go")
+		partf, _ := get("replica/partition.go")
+		lrf, _ := get("replica/replicator_local.go")
+		rec := FindFunc(walf, "writeAheadLog", "recovery")
+		fmt.Fprintf(&sb, "def walRecoveryPartitionArgs : List String := %s\n\n", LeanStrList(c07ResolveArgs(rec, c07CallArgs(rec, "GetOrCreatePartition"))))
+		fmt.Fprintf(&sb, "def walRecoveryLeaderArgs : List String := %s\n\n", LeanStrList(c07ResolveArgs(rec, c07CallArgs(rec, "recovery"))))
+		fmt.Fprintf(&sb, "def partitionRecoveryBuildArgs : List String := %s\n\n", LeanStrList(c07CallArgs(FindFunc(partf, "partition", "recovery"), "buildReplica")))
+		fmt.Fprintf(&sb, "def buildReplicaStateLeader : List String := %s\n\n", LeanStrList(c07KeyValues(FindFunc(partf, "partition", "buildReplica"), "Leader")))
+		fmt.Fprintf(&sb, "def localReplicatorLeader : List String := %s\n\n", LeanStrList(c07KeyValues(FindFunc(lrf, "", "NewLocalReplicator"), "leader")))
+		fmt.Fprintf(&sb, "def localReplicaLeaderArgs : List String := %s\n\n", LeanStrList(append(append(
+			c07CallArgs(FindFunc(lrf, "localReplicator", "Replica"), "ValidateSequence"),
+			c07CallArgs(FindFunc(lrf, "localReplicator", "Replica"), "CommitSequence")...),
+			c07CallArgs(FindFunc(lrf, "", "NewLocalReplicator"), "AckSequence")...)))
 		// replicator.IgnoreMessage: when does it acknowledge an unusable entry?
 		_, rf, err := ParseFile(repo, "replica/replicator.go")
 		if err != nil {
@@ -204,6 +225,93 @@ func C07AtomicAcquire(repo string) (bool, error) {
 		}
 	}
 	return false, fmt.Errorf("dataFamily.WriteRows: unknown shape of memory database lookup / AcquireWrite: %v", wr)
+}
+
+func c07Text(e ast.Expr) string {
+	var buf bytes.Buffer
+	_ = printer.Fprint(&buf, token.NewFileSet(), e)
+	return strings.Join(strings.Fields(buf.String()), " ")
+}
+
+// c07CallArgs lists, in source order, the argument text of every call of a function / method named
+// callee inside fd (function literals are not entered for the leader-callback argument: their text
+// is replaced by "func").
+func c07CallArgs(fd *ast.FuncDecl, callee string) []string {
+	var out []string
+	if fd == nil || fd.Body == nil {
+		return out
+	}
+	ast.Inspect(fd.Body, func(n ast.Node) bool {
+		c, ok := n.(*ast.CallExpr)
+		if !ok {
+			return true
+		}
+		name := ""
+		switch f := c.Fun.(type) {
+		case *ast.Ident:
+			name = f.Name
+		case *ast.SelectorExpr:
+			name = f.Sel.Name
+		}
+		if name != callee {
+			return true
+		}
+		var as []string
+		for _, a := range c.Args {
+			if _, isFn := a.(*ast.FuncLit); isFn {
+				as = append(as, "func")
+			} else {
+				as = append(as, c07Text(a))
+			}
+		}
+		out = append(out, strings.Join(as, ", "))
+		return true
+	})
+	return out
+}
+
+// c07ResolveArgs replaces, inside argument lists, identifiers that are defined once in fd by
+// `x := expr` with that expression (so that the origin of a passed value is visible).
+func c07ResolveArgs(fd *ast.FuncDecl, args []string) []string {
+	defs := map[string]string{}
+	if fd != nil && fd.Body != nil {
+		ast.Inspect(fd.Body, func(n ast.Node) bool {
+			if as, ok := n.(*ast.AssignStmt); ok && as.Tok == token.DEFINE && len(as.Lhs) == 1 && len(as.Rhs) == 1 {
+				if id, ok := as.Lhs[0].(*ast.Ident); ok {
+					defs[id.Name] = c07Text(as.Rhs[0])
+				}
+			}
+			return true
+		})
+	}
+	var out []string
+	for _, a := range args {
+		parts := strings.Split(a, ", ")
+		for i, p := range parts {
+			if d, ok := defs[p]; ok {
+				parts[i] = d
+			}
+		}
+		out = append(out, strings.Join(parts, ", "))
+	}
+	return out
+}
+
+// c07KeyValues lists the values of `key: value` elements of composite literals inside fd.
+func c07KeyValues(fd *ast.FuncDecl, key string) []string {
+	var out []string
+	if fd == nil || fd.Body == nil {
+		return out
+	}
+	ast.Inspect(fd.Body, func(n ast.Node) bool {
+		if kv, ok := n.(*ast.KeyValueExpr); ok {
+			if id, ok := kv.Key.(*ast.Ident); ok && id.Name == key {
+				out = append(out, c07Text(kv.Value))
+			}
+		}
+		return true
+	})
+	return out
 }
 
 func c07LastReturnExpr(fd *ast.FuncDecl) string {
